@@ -23,6 +23,10 @@ RENDER = {
     # imports that look similar and do not bind the name
     "lookalike": ["from inline_snapshot import external as ext", "import inline_snapshot", "from inline_snapshot.extra import raises", "from inline_snapshot import snapshot"],
 }
+# an import followed by another statement on the SAME line: the line is walked to its end, the new import lands behind the whole line (outside the statement-level
+    # model: only the oracle applies - the result must be valid Python and nothing but the inserted line may change)
+RENDER["import_semi"] = ["import sys; SYS_PATH_LEN = len(sys.path)", "import os; import json", "from collections import OrderedDict; OD = OrderedDict  # alias",
+                         "import sys; sys.path.insert(0, '.')"]
 STMT = {"doc": "SDoc", "future": "SFuture", "import": "SImport", "other": "SOther", "top": "SImport", "nested": "SOther", "lookalike": "SImport"}
 BIND = {"top": "BTop", "nested": "BNested"}
 
@@ -33,6 +37,8 @@ def gen_case(rng):
         body.append("doc")
     body += ["future"] * rng.choice([0, 0, 1, 2])
     body += ["import"] * rng.choice([0, 1, 2, 3])
+    if rng.random() < 0.15:
+        body.append("import_semi")
     if rng.random() < 0.25:
         body.append(rng.choice(["top", "lookalike"]))
     for _ in range(rng.choice([0, 1, 2, 4])):
@@ -98,6 +104,8 @@ def oracle(c, o):
     if not o["same"]:
         return "statements other than the inserted import changed"
     body, i = c["body"], o["index"]
+    if "import_semi" in body:
+        return None if i is not None or "top" in body else "no import line was inserted"
     if i is None:
         # nothing inserted: fine only if the module itself binds the name at top level
         try:
@@ -129,6 +137,8 @@ def check_part(ctx, n, label):
         if why:
             ctx.report(f"{label} oracle (import insertion): " + why, {"kind": "imports", "source": c["source"], "body": c["body"], "after": o["new"]})
             continue
+        if "import_semi" in c["body"]:
+            continue                  # oracle only (see RENDER["import_semi"])
         terms.append(g_case(c, o))
         idx.append(i)
     bad = coq_eval_shards(ctx, "imports", "Model.Imports Corr.ImportsCorr", "case", terms, "mismatches")
